@@ -33,6 +33,7 @@ package output
 //@   allocates res
 //@   ensures [result_shape] err == nil ==> res != nil && res.ChangeHash == target.ChangeHash && len(res.Outputs) == 0
 //@   ensures [nil_on_error] err != nil ==> res == nil
+//@   ensures [hash_is_a_function_of_the_digest_bag] err == nil ==> res.OutputHash == H(joinOf(sortseq(bagOf(digests)), ","))
 
 // C01/C02: "restore validates declared outputs against the stored result": a stored result is used only if the multiset of
 // its output definitions equals the multiset the target declares now.
